@@ -249,6 +249,7 @@ def run(ctx):
     _base_specifiers(ctx)
     _accessors_do_not_shadow_methods(ctx)
     _semantic_values_always_set(ctx)
+    _folded_into_the_base_only_without_adjustment(ctx)
 
 
 def _contains(tree, node):
@@ -775,3 +776,66 @@ def _semantic_values_always_set(ctx):
             ctx.ob("R05.10", "%s|%s|value-set-on-every-path" % (nt, "_".join(syms)[:60]), ok, "src/cppparser/cppBison.yxx:%d" % a.line,
                    "assigns $$ on every path" if total else ("leaves $$ = $1 on some path; $1 is %s" % (("the accumulated " + nt) if ok else ("`%s`, not a %s" % (syms[0] if syms else "?", nt)))))
     ctx.floor("R05.10", "actions that assign a semantic value", n, 400)
+
+
+def _folded_into_the_base_only_without_adjustment(ctx):
+    """R05.11: define_method() leaves an overriding virtual method out of a class's record ("already inherited"), and marks
+    the destructor F_inherited_destructor, so that clients call the base class's wrapper with the derived object.  That
+    is only truthful when a Derived* IS a Base* without adjustment and the relation is public and unique - the very
+    condition under which define_struct_type() records the derivation without an upcast function: one base, public,
+    not virtual.  (Seed S8-C05: the `!_is_virtual` conjunct dropped; `struct S : virtual public B` lost its overrides
+    and its destructor was recorded as B's.)"""
+    db = ctx.db
+    ctx.rule("R05.11", "in define_method, marking F_inherited_destructor and returning on is_inherited_published() happen only where SC_inherited_virtual is set, _derivation.size() == 1, _derivation[0]._vis <= V_public and _derivation[0]._is_virtual is false")
+    fs = [g for g in db.functions if g.name == "InterrogateBuilder::define_method" and
+          any(z.get("k") == "ref" and (z.get("n") or "").endswith("F_inherited_destructor") for z in g.walk())]
+    if not fs:
+        ctx.broken("R05.11: InterrogateBuilder::define_method not found")
+        return
+    f = fs[0]
+
+    def size_is_one(atom, truth):
+        ca = G.cmp_atom(atom)
+        if not ca:
+            return False
+        op, x, y = ca
+        op = op if truth else G.NEG[op]
+        for a, b in ((x, y), (y, x)):
+            a = strip_casts(peel(a)) if a is not None else None
+            if a is not None and a.get("k") == "call" and callee_short(a) == "size" and (field_of(strip_casts(peel(a.get("this")))) or "").endswith("::_derivation") and const_int(b) == 1:
+                return op == "=="
+        return False
+
+    def not_virtual(atom, truth):
+        return (not truth) and (field_of(strip_casts(peel(atom))) or "").endswith("::_is_virtual")
+
+    def inherited_virtual(atom, truth):
+        a = strip_casts(peel(atom))
+        ca = G.cmp_atom(a) if a is not None and a.get("k") == "bin" and a.get("op") in ("==", "!=") else None
+        want_set = truth
+        if ca:
+            op, x, y = ca
+            if const_int(y) != 0:
+                return False
+            if op == "==":
+                want_set = not want_set
+            a = strip_casts(peel(x))
+        if a is None or a.get("k") != "bin" or a.get("op") != "&":
+            return False
+        names = [(strip_casts(peel(z)) or {}).get("n", "") for z in (a["x"], a["y"])]
+        return want_set and any(n.endswith("SC_inherited_virtual") for n in names)
+    facts = [("SC_inherited_virtual set", G.edges_where(f, inherited_virtual)), ("_derivation.size() == 1", G.edges_where(f, size_is_one)),
+             ("_derivation[0]._vis <= V_public", G.edges_where(f, G.vis_le("V_public"))), ("!_derivation[0]._is_virtual", G.edges_where(f, not_virtual))]
+    sinks = []
+    for y in f.walk():
+        if y.get("k") == "bin" and y.get("op") in ("|=", "=") and any(z.get("k") == "ref" and (z.get("n") or "").endswith("F_inherited_destructor") for z in walk(y.get("y") or {})):
+            sinks.append(("marks F_inherited_destructor", y))
+    pub = G.edges_where(f, lambda atom, truth: truth and (strip_casts(peel(atom)) or {}).get("k") == "call" and callee_short(strip_casts(peel(atom))) == "is_inherited_published")
+    for r in f.walk():
+        if r.get("k") == "ret" and pub and G.gated(f, r, pub):
+            sinks.append(("returns because the base's declaration is published", r))
+    for what, y in sinks:
+        missing = [name for name, edges in facts if not (edges and G.gated(f, y, edges))]
+        ctx.ob("R05.11", "define_method|%s|sole-public-nonvirtual-base" % what.split(" because")[0].replace(" ", "-"), not missing, f.loc(y),
+               "%s only for a sole, public, non-virtual base" % what if not missing else "%s without: %s" % (what, ", ".join(missing)))
+    ctx.floor("R05.11", "places where define_method folds a member into the base class", len(sinks), 2)
